@@ -132,6 +132,36 @@ def check_task(cx, kinds, cap):
     except Exception as e:
         fail('get_bounds-raises' + ('|permutation-next-to-other-variables' if has_perm_mix else ''),
              f"{type(e).__name__}: {str(e)[:100]}")
+    # the description must follow the variables: edit a variable, or derive a task with other variables, AFTER the
+    # bounds were asked for once
+    if not has_perm_mix and len(kinds) <= 2:
+        try:
+            for v in variables:
+                if isinstance(v, ContinuousVariable):
+                    v.upper_bound = v.upper_bound + 2.0
+                elif isinstance(v, DiscreteVariable):
+                    v.choices.append('extra')
+                else:
+                    continue
+                lb3, ub3 = t.get_bounds()
+                want3 = [p for w in variables for p in ref_bounds(w)]
+                if any(not isinstance(wl, list) and (float(lb3[j]) != float(wl) or float(ub3[j]) != float(wu))
+                       for j, (wl, wu) in enumerate(want3)):
+                    fail('get_bounds-does-not-follow-an-edited-variable', f"{type(v).__name__} edited after the first call")
+                # undo
+                if isinstance(v, ContinuousVariable):
+                    v.upper_bound = v.upper_bound - 2.0
+                else:
+                    v.choices.pop()
+                break
+            other = [proto('C', 'w0'), proto('D', 'w1')]
+            t2 = t.model_copy(update={'variables': other, 'space_dimension': 2})
+            lb4, ub4 = t2.get_bounds()
+            want4 = [p for w in other for p in ref_bounds(w)]
+            if len(lb4) != 2 or any(float(lb4[j]) != float(wl) or float(ub4[j]) != float(wu) for j, (wl, wu) in enumerate(want4)):
+                fail('get_bounds-of-a-derived-task-describes-the-original', f"model_copy(update=variables): {lb4}, {ub4}")
+        except Exception as e:
+            fail('sequence-check-raises', f"{type(e).__name__}: {str(e)[:100]}")
     # empty_solution under every RNG answer
     seams.install()
     try:
